@@ -20,7 +20,7 @@ XREF_FILES = ['src/library.cpp', 'src/rawcell.cpp']
 
 
 def norm(t):
-    return re.sub(r'<[A-Za-z]+:[^>]*>', '', t).replace('gdstk::', '')
+    return re.sub(r'<[A-Za-z]+:(?!:)[^>]*>', '', t).replace('gdstk::', '')
 
 
 def record_switch(fn):
@@ -127,7 +127,7 @@ def check_units(ctx, db):
               'read_gds UNITS handling differs: %s' % got)
 
 
-HDR_SUBST = [(r'gdstk::', ''), (r'<[A-Za-z]+:[^>]*>', ''), (r'\$result\.timestamp\.', 'TS.'), (r'\$timestamp->', 'TS.'), (r'\$result\.out', 'OUT'), (r'\$out\b', 'OUT'), (r'this->out\b', 'OUT'),
+HDR_SUBST = [(r'gdstk::', ''), (r'<[A-Za-z]+:(?!:)[^>]*>', ''), (r'\$result\.timestamp\.', 'TS.'), (r'\$timestamp->', 'TS.'), (r'\$result\.out', 'OUT'), (r'\$out\b', 'OUT'), (r'this->out\b', 'OUT'),
              (r'\$library_name', 'NAME'), (r'this->name', 'NAME'), (r'this->(precision|unit)', r'\1'), (r'\$(precision|unit)', r'\1')]
 
 
@@ -273,7 +273,7 @@ def check_tag_filter(ctx, db):
         qf = next((s for s in pathif.child('then').c if s is not None and s.k == 'IfStmt' and 'shape_tags' in s.child('cond').text()), None)
         ok = pf is not None and qf is not None
         if ok:
-            sub = [(r'gdstk::', ''), (r'<[A-Za-z]+:[^>]*>', ''), (r'\bPolygon\b', 'ELEM'), (r'\bFlexPath\b', 'ELEM'), (r'polygon_array', 'ELEM_array'), (r'flexpath_array', 'ELEM_array'),
+            sub = [(r'gdstk::', ''), (r'<[A-Za-z]+:(?!:)[^>]*>', ''), (r'\bPolygon\b', 'ELEM'), (r'\bFlexPath\b', 'ELEM'), (r'polygon_array', 'ELEM_array'), (r'flexpath_array', 'ELEM_array'),
                    (r'v\d+->elements\[0\]\.tag', 'TAG'), (r'v\d+->tag', 'TAG')]
             a = clone.canon(pf, f, subst=sub)
             b = clone.canon(qf, f, subst=sub)
